@@ -4,6 +4,7 @@ package main
 // Usage: harness <driver> <outDir> [seed] [tier]
 
 import (
+	"path/filepath"
 	"encoding/json"
 	"fmt"
 	"os"
@@ -17,6 +18,22 @@ func writeJSON(path string, v interface{}) {
 	}
 	if err := os.WriteFile(path, bz, 0o644); err != nil {
 		panic(err)
+	}
+}
+
+// probe records the input the real code is about to be given, so that a process-terminating fault that no
+// recover() can catch (out of memory, stack overflow, fatal runtime errors) still leaves the failing input behind
+var probeDir string
+
+func probe(what string) {
+	if probeDir != "" {
+		os.WriteFile(filepath.Join(probeDir, "current_input.txt"), []byte(what), 0o644)
+	}
+}
+
+func probeDone() {
+	if probeDir != "" {
+		os.Remove(filepath.Join(probeDir, "current_input.txt"))
 	}
 }
 
@@ -47,9 +64,14 @@ func main() {
 		}
 		return
 	}
+	probeDir = os.Args[2]
+	os.MkdirAll(probeDir, 0o755)
+	defer probeDone()
 	switch os.Args[1] {
 	case "nodediff":
 		runNodeDiff(os.Args[2], seed, tier)
+	case "airdiff":
+		runAirDiff(os.Args[2], seed, tier)
 	case "algdiff":
 		runAlgDiff(os.Args[2], seed, tier)
 	case "boarddiff":
